@@ -1059,6 +1059,13 @@ class Interp:
                 r_ = NDArr(Store(f'fresh@{getattr(node, "lineno", 0)}', v.store.val if k.dtype == 'bool' else None))
                 r_.mask_of = (v, k)
                 return taint(r_, [v, k])
+            if isinstance(k, tuple) and any(isinstance(x, NDArr) for x in k):
+                # advanced indexing with an index / mask array in one position (a[idx, :]): a COPY of the selected rows.  With a mask the generic
+                # element keeps its value; which rows an index array selects (and how often) is not known: the contents are unknown
+                idx = [x for x in k if isinstance(x, NDArr)]
+                r_ = NDArr(Store(f'fresh@{getattr(node, "lineno", 0)}', v.store.val if all(x.dtype == 'bool' for x in idx) else None))
+                r_.mask_of = (v, k)
+                return taint(r_, [v] + idx)
             if isinstance(k, tuple) and any(isinstance(x, (slice, type(Ellipsis))) or x is None for x in k):
                 return NDArr(v.store, view=('index', k, v.view), dtype=v.dtype)
             o = Opaque(f'{v.store.origin}[{k}]')
